@@ -25,13 +25,12 @@ pub trait Write: Sized {
 
     fn write(&mut self, buf: &[u8]) -> (r: IoResult<usize>)
         ensures
-            r matches Ok(n) ==> n <= buf@.len()
-                && final(self).accepted() == old(self).accepted() + buf@.take(n as int)
-                && final(self).observed() == old(self).observed() + buf@.take(n as int),
-            r is Err ==> final(self).accepted() == old(self).accepted() && final(self).observed() == old(self).observed();
+            r matches Ok(n) ==> n <= buf@.len() && final(self).accepted() == old(self).accepted() + buf@.take(n as int), /*@TL:Write::write:accepts_reported_prefix*/
+            r matches Ok(n) ==> n <= buf@.len() && final(self).observed() == old(self).observed() + buf@.take(n as int), /*@TL:Write::write:observer_sees_reported_prefix*/
+            r is Err ==> final(self).accepted() == old(self).accepted() && final(self).observed() == old(self).observed(); /*@TL:Write::write:error_accepts_nothing*/
 
     fn flush(&mut self) -> (r: IoResult<()>)
-        ensures final(self).accepted() == old(self).accepted() && final(self).observed() == old(self).observed();
+        ensures final(self).accepted() == old(self).accepted() && final(self).observed() == old(self).observed(); /*@TL:Write::flush:flush_keeps_streams*/
 
     /// std default method `write_all` (library/std/src/io/mod.rs `default_write_all`, read):
     ///   while !buf.is_empty() { match self.write(buf) {
